@@ -27,7 +27,7 @@ package vgirpc
 //
 //@ func (*HttpServer).handleExchangeCall
 //@   property C16
-//@   at call stripFrameworkTickMetadata assert [ownmeta] arg0 == inputMeta
+//@   at call stripFrameworkTickMetadata#2 assert [ownmeta] arg0 == inputMeta
 //@   # (the handler is invoked inside the recovering function literal handleExchangeCall$1, which is
 //@   # created and called on the spot: what holds when it is called holds for the handler call in it)
 //@   at call (*HttpServer).handleExchangeCall$1 assert [handlerclean] stripped(callCtx.InputMetadata)
@@ -55,3 +55,32 @@ package vgirpc
 //@   at call (*HttpServer).writeArrow assert [emptyok] arg2 == 200
 //@   at call * except StreamCanceller.OnCancel, slog.Debug, ipc.NewWriter, ipc.WithSchema, (*ipc.Writer).Close, (*HttpServer).logIPCWriteErr, (*HttpServer).writeArrow, (*bytes.Buffer).Bytes, (*HttpServer).handleStreamCancel$1, (*HttpServer).handleStreamCancel$1$1 assert [nothingelse] false
 //@   ensures [nocursor] result == nil
+
+// The batch handed to the exchange handler carries no token either: when the request batch has
+// metadata of its own it is re-wrapped with that metadata stripped of the framework's keys
+// before the handler literal is called (repaired defect: only CallContext.InputMetadata was
+// stripped; an input that needed no cast still carried the sealed cursor and call token).
+//
+//@ func (*HttpServer).handleExchangeCall
+//@   property C16
+//@   pathflag hadMeta
+//@   pathflag rewrapped
+//@   at call (arrow.Metadata).Len#1 setflag hadMeta result > 0
+//@   at call array.NewRecordBatchWithMetadata#1 assert [inputstripped] stripped(arg3) && hadMeta
+//@   at call array.NewRecordBatchWithMetadata#1 mark rewrapped
+//@   pathvar own arrow.Metadata
+//@   at call arrow.RecordBatchWithMetadata.Metadata#2 setflag own result
+//@   at call stripFrameworkTickMetadata#1 assert [ownbatchmeta] arg0 == own
+//@   pathvar cleaned arrow.RecordBatch
+//@   at call array.NewRecordBatchWithMetadata#1 setflag cleaned result
+//@   at call (*HttpServer).handleExchangeCall$1 assert [cleaninput] !hadMeta || (rewrapped && inputBatch == cleaned)
+
+// (recorded finding) nothing makes the data batch an exchange turn flushes fit the stream's
+// schema: a batch of another column count (a handler mistake, or another method's state resumed
+// through a token that is not bound to its method, C14) reaches arrow's constructor, which panics
+// outside every recover, or is refused by the IPC writer and the turn ends as a bare
+// end-of-stream with status 200.
+//
+//@ func (*HttpServer).handleExchangeCall
+//@   property C16
+//@   at call array.NewRecordBatchWithMetadata#2 assert [datashape] len(arg1) == nFields(arg0)
